@@ -193,6 +193,8 @@ impl Op {
             "now"
         } else if k.starts_with("raw.") {
             "raw-query"
+        } else if k.starts_with("core.") {
+            "core-only"
         } else if k.starts_with("inject.") {
             "inject"
         } else {
@@ -321,6 +323,9 @@ pub const NOW_LOCKED: [&str; 3] = ["now.plain_datetime_iso", "now.plain_date_iso
 pub const NOW_FREE: [&str; 3] = ["now.zoneddatetime_iso", "now.instant", "now.time_zone_identifier"];
 /// Raw provider queries.
 pub const RAW: [&str; 3] = ["raw.check_identifier", "raw.offset", "raw.local"];
+/// Provider-taking core operations that have no convenience wrapper; like the
+/// raw queries they reach the shared provider through `with_shared_provider`.
+pub const CORE_ONLY: [&str; 2] = ["core.pd.to_zoned_date_time", "core.zdt.from_partial"];
 /// Fault F7: a call that panics while holding the shared provider.
 pub const INJECT_PANIC: &str = "inject.panic_holding_provider";
 
@@ -859,6 +864,64 @@ fn exec_inner<P: TimeZoneProvider>(op: &Op, mode: Mode<'_, P>) -> Outcome {
                     }
                 }
                 Mode::Twin(p) => q(&Q(p)),
+            }
+        }
+        "core.pd.to_zoned_date_time" | "core.zdt.from_partial" => {
+            fn run<P: TimeZoneProvider>(op: &Op, p: &P) -> Outcome {
+                let (y, mo, d, h, mi, s, ms, us, n) = civil(op.ns);
+                if op.kind == "core.pd.to_zoned_date_time" {
+                    let pd = match PlainDate::try_new(y, mo, d, cal(op.cal)) {
+                        Ok(x) => x,
+                        Err(e) => return out::<()>(Err(e)),
+                    };
+                    let t = if op.sel % 3 == 0 { None } else { plain_time(op.sel / 3).ok() };
+                    out(pd.to_zoned_date_time_with_provider(tz(&op.zone), t, p))
+                } else {
+                    let mut date = temporal_rs::partial::PartialDate::default();
+                    date.year = Some(y);
+                    date.month = Some(mo);
+                    date.day = Some(d);
+                    let mut time = temporal_rs::partial::PartialTime::default();
+                    if op.sel % 5 != 0 {
+                        time.hour = Some(h);
+                        time.minute = Some(mi);
+                        time.second = Some(s);
+                        time.millisecond = Some(ms);
+                        time.microsecond = Some(us);
+                        time.nanosecond = Some(n);
+                    }
+                    let offset = match (op.sel / 5) % 4 {
+                        0 => None,
+                        1 => UtcOffset::from_str("+00:00").ok(),
+                        2 => UtcOffset::from_str("-05:00").ok(),
+                        _ => UtcOffset::from_str("+01:00").ok(),
+                    };
+                    let partial = temporal_rs::partial::PartialZonedDateTime::new()
+                        .with_date(date)
+                        .with_time(time)
+                        .with_offset(offset)
+                        .with_timezone(if op.sel % 11 == 10 { None } else { Some(tz(&op.zone)) });
+                    let ov = match (op.sel / 20) % 3 {
+                        0 => None,
+                        1 => Some(ArithmeticOverflow::Constrain),
+                        _ => Some(ArithmeticOverflow::Reject),
+                    };
+                    let dis = if (op.sel / 60) % 5 == 4 { None } else { Some(DISAMB[((op.sel / 60) % 4) as usize]) };
+                    let od = if (op.sel / 300) % 5 == 4 { None } else { Some(OFFDIS[((op.sel / 300) % 4) as usize]) };
+                    out(ZonedDateTime::from_partial_with_provider(partial, ov, dis, od, p))
+                }
+            }
+            match mode {
+                Mode::Wrapper => {
+                    match temporal_rs::verif_hooks::with_shared_provider(|p| {
+                        sim().yield_point("in-cs", 3);
+                        run(op, p)
+                    }) {
+                        Ok(o) => o,
+                        Err(e) => out::<()>(Err(e)),
+                    }
+                }
+                Mode::Twin(p) => run(op, p),
             }
         }
         INJECT_PANIC => match mode {
